@@ -120,6 +120,7 @@ def handle(c):
             out['cfg'] = cfg
 
     probs = {}
+    per_prob = {}
     for ci, cfg in enumerate(c['cfgs']):
         key = (cfg.get('mode'), cfg.get('lin'), cfg.get('jac'), cfg.get('nl'), cfg.get('mf', True),
                json.dumps(cfg.get('rhs'), sort_keys=True))
@@ -135,8 +136,7 @@ def handle(c):
             continue
         out['ncfg'] += 1
         if isinstance(cfg.get('rhs'), dict) and cfg['rhs'].get('collect_stats'):
-            for kk, vv in ob.rhs_stats(p).items():
-                out['rhs_stats'][kk] = out['rhs_stats'].get(kk, 0) + vv
+            per_prob[key] = ob.rhs_stats(p)      # cumulative per problem: keep the latest
         ds = bool(cfg.get('driver_scaling', False))
         exact = sexact and cfg_exact(cfg)
         iterative = spec['coupled'] or not str(cfg.get('lin', '')).startswith('direct')
@@ -186,6 +186,9 @@ def handle(c):
                     p.run_model()
                 except AnalysisError:
                     pass
+    for st in per_prob.values():
+        for kk, vv in st.items():
+            out['rhs_stats'][kk] = out['rhs_stats'].get(kk, 0) + vv
     if any(r is None for r in res):
         out['res'] = '__none__'
         if out['ncfg'] == 0:
